@@ -69,7 +69,9 @@ def case_get_closest(draw):
         else:
             i = draw(st.integers(0, len(g) - 1))
             vals.append(float(np.nextafter(g[i], draw(st.sampled_from([-np.inf, np.inf])))))
-    return {"kind": kind, "grid": g, "values": vals, "shape": draw(st.sampled_from(["1d", "1d", "2d", "3d"]))}
+    # ... and of another memory layout (Fortran order, a transposed / strided / reversed view): element-wise all the same
+    return {"kind": kind, "grid": g, "values": vals, "shape": draw(st.sampled_from(["1d", "1d", "2d", "3d"])),
+            "layout": draw(st.sampled_from(["C", "C", "F", "T", "strided", "reversed"]))}
 
 
 def _oracle_rows(sub, ctx, case, grid, values, out):
@@ -86,6 +88,20 @@ def _oracle_rows(sub, ctx, case, grid, values, out):
             return
 
 
+def relayout(a, layout):
+    """The same numbers (logically) in another memory layout."""
+    if layout == "F":
+        return np.asfortranarray(a)
+    if layout == "T":
+        return np.ascontiguousarray(a.T).T if a.ndim >= 2 else a      # a transposed *view* with the original logical shape
+    if layout == "strided":
+        big = np.repeat(a, 2, axis=-1)
+        return big[..., ::2]
+    if layout == "reversed":
+        return np.ascontiguousarray(a[..., ::-1])[..., ::-1]
+    return a
+
+
 def check_get_closest(ctx: Ctx, case):
     from black_it.utils.base import get_closest
 
@@ -100,6 +116,7 @@ def check_get_closest(ctx: Ctx, case):
         pad = (-len(values)) % (2 if shp == "2d" else 4)
         values = np.concatenate((values, values[:pad]))
         values = values.reshape((2, -1) if shp == "2d" else (2, 2, -1))
+    values = relayout(values, case.get("layout", "C"))
     g0, v0 = grid.copy(), values.copy()
     with guard(ctx, "C17/exception", sub, case):
         out = get_closest(grid, values)
@@ -109,7 +126,7 @@ def check_get_closest(ctx: Ctx, case):
     out, values, v0 = out.reshape(-1), values.reshape(-1), v0.reshape(-1)
     special = any(v < grid[0] or v > grid[-1] or v == grid[0] or v == grid[-1] for v in values) or any(
         (v == (grid[i] + grid[i + 1]) / 2) for v in values for i in range(len(grid) - 1) if len(grid) < 40)
-    ctx.count(sub, case, bool(special), [case.get("kind", "?")])
+    ctx.count(sub, case, bool(special), [case.get("kind", "?"), f"layout={case.get('layout', 'C')}-{shp}"])
     if out.shape != values.shape:
         ctx.fail("C17/shape", f"shape {out.shape} != {values.shape}", sub, case)
         return
@@ -155,7 +172,8 @@ def case_digitize(draw):
             else:
                 row.append(draw(finite))
         rows.append(row)
-    return {"grids": gs, "data": rows, "dtype": draw(st.sampled_from(["float64", "float64", "float32", "int64"]))}
+    return {"grids": gs, "data": rows, "dtype": draw(st.sampled_from(["float64", "float64", "float32", "int64"])),
+            "layout": draw(st.sampled_from(["C", "C", "F", "T", "strided"]))}
 
 
 def check_digitize(ctx: Ctx, case):
@@ -175,10 +193,11 @@ def check_digitize(ctx: Ctx, case):
             data = data.astype(dt)
             if not np.all(np.isfinite(data.astype(float))):
                 data = np.nan_to_num(data.astype(float), posinf=3e38, neginf=-3e38).astype(dt)
+    data = relayout(data, case.get("layout", "C")) if data.shape[0] else data
     d0 = data.copy()
     with guard(ctx, "C17/exception", sub, case):
         out = digitize_data(data, grids_)
-    ctx.count(sub, case, data.shape[0] >= 1 and d >= 2, [f"d={d}", f"n={'0' if data.shape[0] == 0 else '>0'}", dt])
+    ctx.count(sub, case, data.shape[0] >= 1 and d >= 2, [f"d={d}", f"n={'0' if data.shape[0] == 0 else '>0'}", dt, f"layout={case.get('layout', 'C')}"])
     if out.shape != data.shape:
         ctx.fail("C17/shape", f"digitize_data shape {out.shape} != {data.shape}", sub, case)
         return
